@@ -430,6 +430,22 @@ def binop(I, st, op, a, b, inplace=False):
         ea = st.get(a) if isinstance(a, Ref) else None
         eb = st.get(b) if isinstance(b, Ref) else None
         if (ea is not None and ea.kind == "nd") or (eb is not None and eb.kind == "nd"):
+            if inplace and ea is not None and ea.kind == "nd" and op != "MatMult":
+                # `arr += x` on a numpy array updates the array IN PLACE: every other reference to it sees the new values
+                if getattr(ea, "shared", False):
+                    raise Unsupported("in-place arithmetic on an array that shares memory with a buffer")
+                for st1, r in npmodel.nd_binop(I, st, op, a, b):
+                    if isinstance(r, Exc):
+                        yield st1, r
+                        continue
+                    res, tgt = st1.get(r), st1.get(a)
+                    if res.shape != tgt.shape:
+                        yield st1, exc("ValueError", "non-broadcastable output operand")
+                        continue
+                    tgt.data[:] = list(res.data)
+                    npmodel.sync_views(st1, a)
+                    yield st1, a
+                return
             yield from npmodel.nd_binop(I, st, op, a, b)
             return
         if ea is not None and ea.kind == "obj":
